@@ -628,7 +628,16 @@ def _check_grid(ctx, call, model, grid, what, **detail):
         want = model.solution(v, d)
         for j, part in ((0, 'real'), (1, 'imag')):
             ctx.evaluated(what='D2O_sld.' + part + ('.v1' if v == 1 else '.v0' if v == 0 else '.mid'))
-            if not _agree(ctx, got[j], want[j], model.scale[j], 'D2O_sld.%s.err_over_scale' % part):
+            if v == 1:
+                # pure solute: the answer is the substituted compound itself, whatever the solvent is - judged
+                # against the solute's own magnitude (a residual-gas solute of 1e-12 g/cm^3 must not drown in the
+                # rounding of a solvent twelve orders of magnitude denser)
+                import numpy as np
+                scale = max(float(np.max(np.abs(model.solute(dd)[j]))) for dd in (0, 1, d))
+                good = _agree(ctx, got[j], want[j], scale, 'D2O_sld.%s.v1.err_over_solute' % part)
+            else:
+                good = _agree(ctx, got[j], want[j], model.scale[j], 'D2O_sld.%s.err_over_scale' % part)
+            if not good:
                 where = ('solute with fraction d of H[1] -> D at constant volume' if v == 1 else
                          'H2O/D2O solvent mixture' if v == 0 else 'volume-fraction weighted mean')
                 ctx.violation('%s: %s SLD at volume fraction %r, D2O fraction %r is %r, %s gives %r'
